@@ -30,6 +30,15 @@ func All() map[string]orch.PropertySpec {
 		"C05": {ID: "C05", Level: "model_checking", Assumptions: trusted,
 			Rule: "cases are all assignments TLC enumerates from spec/Time.tla of the SP clock, Conditions NotBefore, Conditions NotOnOrAfter and each assertion's SubjectConfirmationData NotOnOrAfter (1..2 assertions) to a tick or to absent / malformed, i.e. every relative order including all equalities; ticks are 500 ms apart and every bound is rendered in a seeded random RFC 3339 form (zone offset, fractional digits); all replayed; non-trivial = every case",
 			Parts: []orch.Part{{Family: fam.Time{}, Monitors: []string{"C05"}}}},
+		"C06": {ID: "C06", Level: "model_checking", Assumptions: trusted,
+			Rule: "cases are all condition shapes TLC enumerates from spec/Cond.tla: 0..3 AudienceRestrictions each with 0..2 Audience values over match / case variant / trailing slash / whitespace-padded / unrelated / empty, configured audience URI or the empty string, OneTimeUse present or absent, ProxyRestriction absent or with Count absent/0/1/5 and 0..2 audiences; a second assertion with contrary conditions is added on even seeds; all replayed through RetrieveAssertionInfo; non-trivial = every case",
+			Parts: []orch.Part{{Family: fam.Cond{}, Monitors: []string{"C06"}}}},
+		"C10": {ID: "C10", Level: "model_checking", Assumptions: trusted,
+			Rule: "cases are the full product TLC enumerates from spec/Logout.tla: LogoutRequest / LogoutResponse x Version ok/absent/wrong x Destination ok/absent/other x Issuer ok/absent/other x Status ok/absent/no code/non-success x signing state (unsigned, trusted, untrusted, tampered, genuine message wrapped in an unsigned outer one with a different / the same ID, signature relocated into a wrapper) x signature checking on/off x issuer configured or not, plus kind confusion (each of SSO Response, LogoutRequest, LogoutResponse given to each other validator), plus the logout kinds of spec/Trust.tla; all replayed, raw or DEFLATE by seed; non-trivial = every case",
+			Parts: []orch.Part{{Family: fam.Logout{}, Monitors: []string{"C10"}}, {Family: fam.Trust{}, Monitors: []string{"C10"}}}},
+		"C04": {ID: "C04", Level: "model_checking", Assumptions: trusted,
+			Rule: "cases are the attacker documents of spec/Forgery.tla (signature-checking and skip mode), the signer/store/clock matrix of spec/Trust.tla for all four inbound kinds and the signing states of spec/Logout.tla; each replayed against the real code, flags of the Response, of every assertion, of the assertion-info summary and of logout messages projected; non-trivial = every case",
+			Parts: []orch.Part{{Family: fam.Forgery{}, Monitors: []string{"C04"}}, {Family: fam.Trust{}, Monitors: []string{"C04"}}, {Family: fam.Logout{}, Monitors: []string{"C04"}}}},
 	}
 }
 
